@@ -13,6 +13,11 @@ Definition out_eqb (a b : out) : bool :=
   | _, _ => false
   end.
 
+(* compressed form of long scripts (emitted by the harness for runs of consecutive writes) *)
+Fixpoint writes (start : Z) (n : nat) : list op :=
+  match n with O => [] | S k => Write start :: writes (start + 1) k end.
+Definition units (n : nat) : list out := repeat OUnit n.
+
 Record case := { cid : nat; cinit : Z; cops : list op; cimpl : list out }.
 
 Definition model_outs (c : case) : list out := snd (run (new_ring (cinit c)) (cops c)).
